@@ -6,7 +6,16 @@ ID = "C01"
 LEAN_MODULES = ["LhasaV.Props.C01"]
 VH_FEATURES = ["decoder"]
 PER_OP_SECONDS = 60
-THEOREMS = {}
+THEOREMS = {
+    "lhnew_decode_serialise": "FULL STATEMENT: every well-formed description, every parameter set with RTParams, any chunking, declared length, schedule",
+    "lh5_decode_serialise": "full (-lh4-/-lh5-)", "lh6_decode_serialise": "full", "lh7_decode_serialise": "full",
+    "lhx_decode_serialise": "full", "lk7_decode_serialise": "full (LHark)",
+    "fmt_matches_source": "full (Gen): spec format constants = compiled source", "params_ok": "full (Gen)",
+    "bit_reader_refines": "full: layer i", "tree_decodes_canonical_code": "full: layer ii, any complete table over any previous table contents",
+    "tree_build_in_bounds": "full", "tree_single": "full", "block_header_roundtrip": "full: layer iii",
+    "ring_copy_is_window_copy": "full: layer iv", "ring_literal": "full",
+    "lhark_length_code_roundtrip": "full", "distance_code_roundtrip": "full",
+}
 TRUSTED = ["spec LhasaV.Spec.LhNewEnc (stream format as an encoder: block layout, length-value code, zero-run tokens, skip field, "
            "canonical code assignment Spec.Canon, LHark length/distance codes) and Spec.Lz77.expandWin (window pre-filled with spaces)",
            "hand-written decoder models LhasaV.Model.{Bits,Tree,LhNew,Ring,Wrap} with parameters regenerated from the compiled "
@@ -93,8 +102,11 @@ def signature(case, c_out, why):
     return case.op.split()[1] + ":wrong-output"
 
 
-LEVEL_TEXT = ("Lean theorems about the decoder model for every well-formed stream (see evidence.theorems for what is proved at full "
-              "strength and which layer of the composed round trip is still a hypothesis); model tied to the C by a three-way "
-              "differential run over generated stream descriptions serialised by the Lean specification.")
-LEVEL_NOTE = "see DESIGN.md section 5, C01"
+LEVEL_TEXT = ("Kernel-checked round-trip theorem at full strength: for every well-formed stream description (any blocks, tables in any "
+              "transmitted form, commands) of each of lh4/5/6/7/x/k7, any callback chunking, declared length and read schedule, reading "
+              "the serialised stream through the decoder API yields exactly the expansion (layers: bit reader, canonical-code tree, "
+              "table transmission, ring = window, wrapper). Model tied to the C by a three-way differential run over generated "
+              "descriptions serialised by the Lean specification; format constants and capacities regenerated from the source.")
+LEVEL_NOTE = ("Trusted: Lean kernel; axioms propext, Classical.choice, Quot.sound; Spec.LhNewEnc/Spec.Canon/Spec.Lz77 as the meaning of the "
+              "format; the hand-written decoder models (differentially validated on every run); gen/ext_lhnew.c.")
 TECHNIQUE = "Lean 4 proof (bit-reader refinement, canonical-code tree theorem, ring refinement) + three-way differential correspondence"
